@@ -31,6 +31,9 @@ CLAIMED = {
  "C20": ("§7 C20", "The command is rebuilt from /repo and run as a subprocess on every document of a corpus (all catalogue scalars, token-class representatives in annotation/field/nesting contexts, every typed null, all small shapes) in text and binary x five output formats x two input routes, plus the C07 catalogue of invalid inputs; outputs are decoded by the independent decoders (or matched event by event against the expected event list) and the error report is parsed.",
          "Trusts the reference codecs and the event expectation derived from the model; documents outside the corpus are not covered; the 60 s timeout is only a hang backstop.",
          "exhaustive enumeration of a document x format x route product, each executed as a real subprocess and judged by an independent decoder"),
+ "C18": ("§7 C18", "Stateless schedule exploration of the real code under a cooperative scheduler: package ion is re-instrumented from the current sources on every run (every access to package-level variables and to fields of the shareable symbol-table/catalog types is a scheduling point and an access record, as is every io.Writer.Write of the harness); for five 3-thread scenarios forced to meet on shared objects ALL schedules with <=d preemptions are executed, each checked for per-thread output equality with the solo run and for conflicting access pairs. A free-running -race pass of the same bodies complements it.",
+         "Shared state outside the instrumented type set and memory-model effects are visible to the race pass only; scenarios with more threads or operations are not covered.",
+         "stateless model checking of thread interleavings (preemption-bounded, controlled scheduler over instrumented accesses) + conflict monitor"),
  "C05": ("§7 C05", "Source documents produced by the reference printer/encoder (the whole value generator, plus every history of <=4 symbol-table events under five catalogs) in text and binary are copied by the documented copy loop into text, pretty and binary Writers; the independent decoder must read back the values the reference context machine assigns to the source, symbols compared by text.",
          "Trusts refsym/refbin/reftext; longer histories are not covered; symbols whose text the source does not know are judged on histories of <=3 events (known findings).",
          "explicit enumeration of source histories x destinations, replayed through the real Reader and Writer, judged by an independent decoder"),
@@ -62,7 +65,7 @@ CLAIMED = {
          "Trusts math/big and the 30-line reference literal grammar; values outside the grid (other coefficients, exponent gaps above the bound) are not covered.",
          "explicit enumeration of the operand/operation choice tree on the implementation (stateless explorer) vs exact-arithmetic reference"),
 }
-NOT_YET = "check not built yet in this round (design in DESIGN.md §7); no claim is made"
+NOT_YET = "not claimed"
 props=[json.loads(l) for l in open('/verif/properties.jsonl')]
 checks=[]; na=[]
 for p in props:
